@@ -166,6 +166,18 @@ def fmt_float(f):
     return s
 
 
+def rightmost(e):
+    while e[0] == "bin":
+        e = e[3]
+    return e
+
+
+def bare_cond_ok(e):
+    """A bare condition directly followed by "{" must not end in `Upper.Upper` (enum variant / struct-like name):
+    the parser reads `E.V {` as a union construction."""
+    return bare_ok(e) and rightmost(e)[0] not in ("enum", "mk", "umk", "var", "field")
+
+
 def bare_ok(e):
     """Statement-level expression positions print an infix chain without outer parentheses when the AST node says so
     (style 'i' + the 'bare' marker chosen by the generator: a 6th/5th tuple element)."""
@@ -193,11 +205,11 @@ def p_stmt(s, ind, so=None):
     if k == "set":
         return ["%sset %s %s" % (pad, s[1], p_expr(s[2], so, bare_ok(s[2])))]
     if k == "if":
-        out = ["%sif %s {" % (pad, p_expr(s[1], so, bare_ok(s[1])))] + p_block(s[2], ind + 1, so)
+        out = ["%sif %s {" % (pad, p_expr(s[1], so, bare_cond_ok(s[1])))] + p_block(s[2], ind + 1, so)
         els = s[3]
         while els is not None:
             if len(els) == 1 and els[0][0] == "if" and len(els[0]) > 4 and els[0][4] == "elif":
-                out.append("%s} else if %s {" % (pad, p_expr(els[0][1], so, bare_ok(els[0][1]))))
+                out.append("%s} else if %s {" % (pad, p_expr(els[0][1], so, bare_cond_ok(els[0][1]))))
                 out += p_block(els[0][2], ind + 1, so)
                 els = els[0][3]
             else:
@@ -207,7 +219,7 @@ def p_stmt(s, ind, so=None):
         out.append("%s}" % pad)
         return out
     if k == "while":
-        return ["%swhile %s {" % (pad, p_expr(s[1], so, bare_ok(s[1])))] + p_block(s[2], ind + 1, so) + ["%s}" % pad]
+        return ["%swhile %s {" % (pad, p_expr(s[1], so, bare_cond_ok(s[1])))] + p_block(s[2], ind + 1, so) + ["%s}" % pad]
     if k == "for":
         return ["%sfor %s in (range %s %s) {" % (pad, s[1], p_expr(s[2], so), p_expr(s[3], so))] + \
             p_block(s[4], ind + 1, so) + ["%s}" % pad]
